@@ -150,6 +150,13 @@ func (x *verifMExec) run(n *verifMNode) error {
 		}
 		return verifOutcome(outc, x.pv)
 	}
+	// a leaf's predicate behaves as its outcome says; the request of a nested call hands the inner
+	// call's result on: the plain predicate judges it
+	acceptable := Acceptable(verifAcceptable)
+	var pst verifPredState
+	if n.In == nil {
+		acceptable = verifPred(outc, x.pv, &pst)
+	}
 	req := func() error {
 		reqRuns++
 		return body()
@@ -173,9 +180,9 @@ func (x *verifMExec) run(n *verifMNode) error {
 		}()
 		if entry <= 3 {
 			if via == 1 && I.named {
-				ret = verifInvokeNamed(I.name, entry, ctxm, ctx, req, fb, verifAcceptable)
+				ret = verifInvokeNamed(I.name, entry, ctxm, ctx, req, fb, acceptable)
 			} else {
-				ret = verifInvoke(I.brk, entry, ctxm, ctx, req, fb, verifAcceptable)
+				ret = verifInvoke(I.brk, entry, ctxm, ctx, req, fb, acceptable)
 			}
 		} else {
 			var p Promise
